@@ -187,8 +187,12 @@ func c13SendersFor(c *Ctx, rule string) {
 		bk := fl.K.Key(retValue(r, 0))
 		facts := fl.At(r)
 		// h == BlockFromProto(b).Hash() where h is copied from in.GetHash()
-		ok := hasCmp(facts, "==", func(k string) bool { return strings.HasPrefix(k, "*alloc@") || strings.HasPrefix(k, "alloc@") || strings.Contains(k, "&[") },
-			func(k string) bool { return strings.HasPrefix(k, kBlockHash+"hs/internal/proto/hotstuffpb.BlockFromProto("+bk+")") })
+		ok := hasCmp(facts, "==", func(k string) bool {
+			return strings.HasPrefix(k, "*alloc@") || strings.HasPrefix(k, "alloc@") || strings.Contains(k, "&[")
+		},
+			func(k string) bool {
+				return strings.HasPrefix(k, kBlockHash+"hs/internal/proto/hotstuffpb.BlockFromProto("+bk+")")
+			})
 		if !ok {
 			bad = append(bad, p.Pos(r.Pos())+" returns "+bk+"; facts: "+join(facts.Sorted()))
 		}
